@@ -65,6 +65,8 @@ var modelledOps = map[string]bool{
 	"SigUpdateName": true, "MuxInsertSignal": true, "MuxRemoveSignal": true, "MuxClearGroup": true, "MuxClearAll": true,
 	// Clone of an enum (with its values) and of an enum value are model operations (EnumClone / EvalClone)
 	"CloneEnum": true, "CloneEval": true,
+	// size of a message, type of a bus (MsgResize / BusSetType)
+	"MsgUpdateSize": true, "BusSetType": true,
 }
 
 // goName: the Go method an operation stands for (call site in signatures and messages)
@@ -267,6 +269,10 @@ func exec(p *Pool, o Op) (out Outcome, bad error) {
 			out.Err = v.UpdateIndex(int(a(1)))
 		}
 	default:
+		if h, b := execPlain(p, o, &out); h {
+			bad = b
+			return
+		}
 		handled, b := execExtra(p, o, &out)
 		if b != nil {
 			bad = b
